@@ -32,6 +32,15 @@ def _case(args):
                 by_la.setdefault(tid[la], []).append([ex['prio'][ri], ri])
         spec_las.append(sorted([la, sorted(c, key=lambda x: x[1])] for la, c in by_la.items()))
     rec['spec_las'] = spec_las
+    # item-lookahead annotation for the completeness certificate: true LALR(1) lookaheads of every item (root items carry none)
+    ann = []
+    il = getattr(oracle_lr1.lr1_lalr, 'item_las', {})
+    for q, items in enumerate(ex['items']):
+        core = frozenset((ri, d) for ri, d in items)
+        for (ri, d), las in il.get(core, {}).items():
+            if ri < nrules:
+                ann.append([q, ri, d, sorted(tid[x] for x in las)])
+    rec['ann'] = ann
     # ---- the real front end
     try:
         with guarded(15):
@@ -133,8 +142,8 @@ def run(ctx, res, focus='c02'):
         else:
             res.count('lookahead_comparison_skipped_unproductive_symbols')   # LR(1) closure drops items behind symbols that derive nothing
         if ex['error'] is None and rec.get('lark_error') is None:
-            for r in rec['runs']:
-                cases.append(lalrlib.ftable_case(ex, r['toks'])); meta.append(('parse', rec, r))
+            for k_, r in enumerate(rec['runs']):
+                cases.append(lalrlib.ftable_case(ex, r['toks'], ann=rec['ann'] if k_ == 0 else None)); meta.append(('parse', rec, r))
                 cases.append({'op': 'earley', 'rules': ex['rules'][:len(ex['plain_rules'])], 'n': len(r['toks']), 'edges': [[t, i, i + 1] for i, t in enumerate(r['toks'])], 'igns': [],
                               'start': ex['nts'].index('start')}); meta.append(('lang', rec, r))
     model = run_driver_parallel(cases, timeout=900)
@@ -185,6 +194,14 @@ def run(ctx, res, focus='c02'):
             res.count('parses')
             if not m['safe']:
                 res.corr_break('lark\'s own table fails the soundness certificate checkSafe', {'grammar': g})
+            if m.get('closed') is not None and focus == 'c02':
+                sr_ = any(any(s[0] == la for s in row['shifts']) for row in ex['rows'] for la, _c in row['las'])
+                rr_ = any(len(c) > 1 for row in ex['rows'] for _la, c in row['las'])
+                res.count('tables_certified_complete' if m['closed'] else 'tables_not_certified_complete')
+                if not m['closed'] and not sr_ and not rr_ and all(x is not None for x in rec['spec_las']):
+                    res.corr_break('lark\'s own conflict-free table fails the completeness certificate checkClosed (with true LALR(1) item lookaheads and lark\'s NULLABLE/FIRST)', {'grammar': g})
+                if m['closed'] and (sr_ or rr_):
+                    res.corr_break('checkClosed passed on a table with conflicts', {'grammar': g})
             if m['parse'] != m['outcome']:
                 res.corr_break('driver stepwise outcome differs from LRProto.parse', {'grammar': g, 'toks': r['toks']})
             if r.get('timeout'):
